@@ -207,7 +207,7 @@ func c05AsyncRun(sql string, rows []map[string]interface{}, want int, nSinks int
 	for _, r := range rows {
 		s.Emit(r)
 	}
-	deadline := time.Now().Add(2 * time.Second)
+	deadline := time.Now().Add(5 * time.Second)
 	select {
 	case <-sinkDone:
 	case <-time.After(time.Until(deadline)):
